@@ -54,8 +54,9 @@ def selectBest (cs : List (Nat × Nat)) (first : Nat) : Nat :=
 def placeOnMatrix (bytes : Array Nat) (l : ECL) (v : Nat) (forced : Option Nat) : Chk (QR × Nat) := do
   let t := template v
   let _ ← (⟨(), templateTraps v⟩ : Chk Unit)
-  let (placed, nbits) := placeData t bytes
-  let _ ← (⟨(), placeTraps t bytes.size nbits v⟩ : Chk Unit)
+  let pd := placeData t bytes
+  let placed := pd.1
+  let _ ← (⟨(), placeTraps t bytes.size pd.2 v⟩ : Chk Unit)
   let cands := candidates placed
   let _ ← (⟨(), T.masksOrder.flatMap fun m => maskTraps m placed.n⟩ : Chk Unit)
   let _ ← (⟨(), cands.flatMap fun c => scoreTraps c.qr (transpose c.qr)⟩ : Chk Unit)
